@@ -446,18 +446,40 @@ def rule_D(chk, cfgname, m):
     return n
 
 
+def _dprime_job(job):
+    """run rule D' for one configuration in a worker process; returns the recorded results"""
+    cfgname, fdir = job
+    from framework import Check
+    import c12_terms
+    F = Facts(cfgname, fdir)
+    sub = Check('C12', 'quick', 'other', 'worker')
+    n = c12_terms.run_rule(sub, cfgname, F.mono)
+    return cfgname, n, sub.obligations, sub.discharged, sub.by_rule, sub.violations, sub.samples
+
+
 def run(chk, facts_by_config):
-    chk.trusted += ['Clone impls of core integer/array types and hybrid_array::Array', 'cpufeatures token semantics']
-    chk.undecided += ['value-level equality of round keys derived by new() and by conversion (term engine, DESIGN §5 C12 D\')']
-    for cfgname, F in facts_by_config.items():
-        chk.configs.append(cfgname)
-        m = F.mono
-        reach = set()
-        for r in m.roots.values():
-            reach |= m.reachable(r)
-        nu = rule_U(chk, cfgname, m, reach)
-        chk.floor('U-union-token', nu, 'U.' + cfgname)
-        nk = rule_K(chk, cfgname, m, reach)
-        chk.floor('K-clone-fieldwise', nk, 'K.' + cfgname)
-        nd = rule_D(chk, cfgname, m)
-        chk.floor('D-same-derivation', nd, 'D.' + cfgname)
+    import multiprocessing as mp
+    chk.trusted += ['Clone impls of core integer/array types and hybrid_array::Array', 'cpufeatures token semantics',
+                    'the rewrite rules of analysis/terms.py; key-expansion intrinsics are pure functions']
+    with mp.Pool(min(8, len(facts_by_config))) as pool:
+        dasync = pool.map_async(_dprime_job, [(c, F.dir) for c, F in facts_by_config.items()], chunksize=1)
+        for cfgname, F in facts_by_config.items():
+            chk.configs.append(cfgname)
+            m = F.mono
+            reach = set()
+            for r in m.roots.values():
+                reach |= m.reachable(r)
+            nu = rule_U(chk, cfgname, m, reach)
+            chk.floor('U-union-token', nu, 'U.' + cfgname)
+            nk = rule_K(chk, cfgname, m, reach)
+            chk.floor('K-clone-fieldwise', nk, 'K.' + cfgname)
+        for (cfgname, n, ob, di, by_rule, viols, samples) in dasync.get():
+            chk.obligations += ob
+            chk.discharged += di
+            for k, v in by_rule.items():
+                r = chk.by_rule.setdefault(k, [0, 0])
+                r[0] += v[0]
+                r[1] += v[1]
+            chk.violations += viols
+            chk.samples += samples[:2]
+            chk.floor("D'-same-keys", n, 'Dp.' + cfgname)
